@@ -63,11 +63,13 @@ def obligations(tier, seed):
         if mx + 1 < (1 << 64):
             C1 = 'au::make_constant(au::Meters{} * au::mag<%dULL>())' % (mx + 1)
             probes.append(('max1_%s' % T, 'VF_STATIC_FACT(!%s.can_store_value_in<%s>(au::meters));' % (C1, T)))
+    for (T, pr) in (('uint8_t', 257), ('int8_t', 131), ('uint16_t', 65537), ('int16_t', 32771), ('int32_t', 2147483659)):
+        probes.append(('prime_above_%s' % T, 'VF_STATIC_FACT(!au::make_constant(au::Meters{} * au::mag<%dULL>()).can_store_value_in<%s>(au::meters));' % (pr, T)))
     probes.append(('c_i32', 'VF_STATIC_FACT(au::SPEED_OF_LIGHT.can_store_value_in<int32_t>(au::meters / au::second));\nVF_STATIC_FACT(au::SPEED_OF_LIGHT.in<int32_t>(au::meters / au::second) == 299792458);'))
     probes.append(('c_i16_no', 'VF_STATIC_FACT(!au::SPEED_OF_LIGHT.can_store_value_in<int16_t>(au::meters / au::second));'))
     probes.append(('c_km_no', 'VF_STATIC_FACT(!au::SPEED_OF_LIGHT.can_store_value_in<int64_t>(au::kilo(au::meters) / au::second));'))
     probes.append(('c_km_f64', 'VF_STATIC_FACT(au::SPEED_OF_LIGHT.can_store_value_in<double>(au::kilo(au::meters) / au::second));'))
-    sel = probes if tier == 'thorough' else probes[:-4][::2] + probes[-4:]
+    sel = probes if tier == 'thorough' else probes[:-9][::2] + probes[-9:]
     for (nm, text) in sel:
         obs.append(Ob(id='C16.static.%s' % nm, prop='C16', group='C16.static', prelude='', wrappers=[], inputs=[], body=HDR + text + '\nint main() {}\n', kind='S',
                       contract='static fact: ' + text.replace('\n', ' '), functions_under_contract=('au::Constant::can_store_value_in / as / in (compile-time)',)))
